@@ -159,6 +159,17 @@ func bystandersRemote() {
 	mxj.AnyXml([]interface{}{bystanderStruct{1, "&"}, "x", map[string]interface{}{"e": ""}}, "list", "item")
 	mxj.AnyXml([]interface{}{bystanderStruct{1, "x"}, map[string]interface{}{"-id": []interface{}{1}}, map[string]interface{}{"e": ""}})
 	mxj.AnyXmlIndent([]interface{}{bystanderStruct{1, "x"}, map[string]interface{}{"-id": []interface{}{1}}}, "", " ")
+	for _, bad := range []interface{}{map[string]interface{}{"-id": []interface{}{1.0}, "k": "v"}, map[string]interface{}{"-id": map[string]interface{}{"x": 1}, "k": 1}, map[string]interface{}{"k": func() {}}, func() {}, make(chan int), map[string]interface{}{"k": []interface{}{map[string]interface{}{"-a": []interface{}{"x"}, "b": ""}}}} {
+		// lists whose members fail half-way, before and after members of every other kind
+		mxj.AnyXml([]interface{}{bystanderStruct{1, ""}, bad, "s"})
+		mxj.AnyXml([]interface{}{"s", map[string]interface{}{"e": ""}, bad, bystanderStruct{1, ""}})
+		mxj.AnyXmlIndent([]interface{}{bystanderStruct{1, ""}, map[string]interface{}{"e": ""}, bad}, "", " ")
+		mxj.AnyXml(bad, "r")
+		mxj.AnyXml(map[string]interface{}{"m": bad}, "r")
+		(mxj.Map{"r": map[string]interface{}{"e": "", "m": bad}}).Xml()
+		(mxj.Map{"r": map[string]interface{}{"e": "", "m": bad}}).XmlIndent("", " ")
+		(mxj.Map{"r": map[string]interface{}{"e": "", "m": bad}}).Json()
+	}
 	mxj.AnyXml(bystanderStruct{2, "y"})
 	mxj.AnyXml(nil)
 	mxj.AnyXml(1.5, "n")
